@@ -375,6 +375,12 @@ pub fn plan_lifecycle_lp(w: &World, knobs: &Knobs, actor: &mut Actor, l: &Ledger
                     }
                 }
             }
+            if rng.chance(1, 6) {
+                // the wrong instruction: the ordinary close_position over the bundled position, the bundle mint and the bundle
+                // token (it would burn the bundle token and leave the bitmap behind); must be refused
+                let pk = PositionKeys { position: bp, mint: *bmint, token_account: *bta, owner: actor.wallet, nft_program: ix::tok() };
+                flow.push((tx1(ix::close_position(&actor.wallet, &actor.wallet, &pk)), "close_position on a bundled position".into()));
+            }
             flow.push((
                 tx1(ix::mk(
                     wa::CloseBundledPosition {
